@@ -15,6 +15,7 @@ from dsim import gen, pipe
 from dsim import refmodel as R
 from dsim.actors import (read_all, read_twice, exc_summary,
                          header_short_reads)
+from dsim.actors import STREAM_KINDS
 from dsim.world import World
 
 ID = 'C10'
@@ -347,7 +348,7 @@ def execute(scn, L):
         recs, end, exc = read_all(
                               w, data, block_size=scn.get('block_size'),
                               stream=scn.get('stream') if scn.get('stream')
-                              in ('sim', 'bytesio', 'buffered') else 'sim',
+                              in STREAM_KINDS else 'sim',
                               buf=64, actor='R',
                               prefix=(scn.get('stream_extras') or {}).get(
                                   'prefix', 0),
